@@ -57,3 +57,150 @@ pub(super) fn vk_waiting_holdtap(cfg: HoldTapConfig<'static>, coord: KCoord) -> 
         prev_queue_len: kani::any(),
     }
 }
+
+// ---------------------------------------------------------------------------------------------
+// A small real Layout with symbolic contents.
+// ---------------------------------------------------------------------------------------------
+#[allow(dead_code)]
+pub(super) static VK_CUSTOM_VALS: [u8; 2] = [11, 22];
+#[allow(dead_code)]
+pub(super) static VK_SEQ_EVENTS: &[SequenceEvent<'static, u8>] = &[SequenceEvent::Tap(KeyCode::Q)];
+
+/// 3 columns x 2 rows (row 1 = virtual keys) x 3 layers.
+#[allow(dead_code)]
+pub(super) static VK_LAYERS: [[[Action<'static, u8>; 3]; 2]; 3] = [
+    [
+        [Action::KeyCode(KeyCode::A), Action::KeyCode(KeyCode::B), Action::Layer(1)],
+        [Action::KeyCode(KeyCode::F1), Action::NoOp, Action::NoOp],
+    ],
+    [
+        [Action::Trans, Action::KeyCode(KeyCode::Kb1), Action::Trans],
+        [Action::Trans, Action::Trans, Action::Trans],
+    ],
+    [
+        [Action::KeyCode(KeyCode::X), Action::Trans, Action::Trans],
+        [Action::Trans, Action::Trans, Action::Trans],
+    ],
+];
+#[allow(dead_code)]
+pub(super) static VK_SRC: [Action<'static, u8>; 3] = [
+    Action::KeyCode(KeyCode::A),
+    Action::KeyCode(KeyCode::B),
+    Action::KeyCode(KeyCode::C),
+];
+
+#[allow(dead_code)]
+pub(super) fn vk_any_keycode() -> KeyCode {
+    let k: u8 = kani::any();
+    kani::assume(k < 4);
+    match k {
+        0 => KeyCode::A,
+        1 => KeyCode::B,
+        2 => KeyCode::LShift,
+        _ => KeyCode::LCtrl,
+    }
+}
+
+#[allow(dead_code)]
+pub(super) fn vk_any_coord(ncol: u16) -> KCoord {
+    let x: u8 = kani::any();
+    let y: u16 = kani::any();
+    kani::assume(x < 2 && y < ncol);
+    (x, y)
+}
+
+/// Any state of any variant; coordinates over 2 rows x `ncol` columns, layers < 3.
+#[allow(dead_code)]
+pub(super) fn vk_any_state(ncol: u16) -> State<'static, u8> {
+    let k: u8 = kani::any();
+    kani::assume(k < 8);
+    match k {
+        0 => NormalKey { keycode: vk_any_keycode(), coord: vk_any_coord(ncol), flags: NormalKeyFlags(kani::any::<u8>() & 3) },
+        1 => LayerModifier { value: { let v: usize = kani::any(); kani::assume(v < 3); v }, coord: vk_any_coord(ncol) },
+        2 => State::Custom { value: &VK_CUSTOM_VALS[if kani::any() { 0 } else { 1 }], coord: vk_any_coord(ncol) },
+        3 => FakeKey { keycode: vk_any_keycode() },
+        4 => RepeatingSequence { sequence: &VK_SEQ_EVENTS, coord: vk_any_coord(ncol) },
+        5 => SeqCustomPending(&VK_CUSTOM_VALS[0]),
+        6 => SeqCustomActive(&VK_CUSTOM_VALS[1]),
+        _ => Tombstone,
+    }
+}
+
+/// Field-for-field what `Layout::new` builds, written as a struct literal so that the only loop of the
+/// constructor (`array::from_fn` in `MultiKeyBuffer::new`) is avoided.  Adding a field to `Layout` makes
+/// this fail to compile (reported as build-error = inconclusive), so it cannot silently go stale.
+#[allow(dead_code)]
+pub(super) fn vk_layout_literal<'a, const C: usize, const R: usize>(
+    src_keys: &'a [Action<'a, u8>; C],
+    layers: &'a [[[Action<'a, u8>; C]; R]],
+) -> Layout<'a, C, R, u8> {
+    Layout {
+        src_keys,
+        layers,
+        default_layer: 0,
+        states: Vec::new(),
+        waiting: None,
+        extra_waiting: ArrayDeque::new(),
+        tap_dance_eager: None,
+        queue: ArrayDeque::new(),
+        oneshot: OneShotState {
+            timeout: 0,
+            end_config: OneShotEndConfig::EndOnFirstPress,
+            keys: ArrayDeque::new(),
+            released_keys: ArrayDeque::new(),
+            other_pressed_keys: ArrayDeque::new(),
+            release_on_next_tick: false,
+            pause_input_processing_delay: 0,
+            pause_input_processing_ticks: 0,
+            ticks_to_ignore_events: 0,
+        },
+        last_press_tracker: Default::default(),
+        active_sequences: ArrayDeque::new(),
+        action_queue: ArrayDeque::new(),
+        rpt_action: None,
+        historical_keys: History::new(),
+        historical_inputs: History::new(),
+        rpt_multikey_key_buffer: crate::multikey_buffer::verif_kani::vk_mkb_new(),
+        quick_tap_hold_timeout: false,
+        trans_resolution_behavior_v2: true,
+        delegate_to_first_layer: false,
+        chords_v2: None,
+    }
+}
+
+/// `vk_layout_literal` on the static table, then `n <= MAX` symbolic states
+/// pushed through the real `Vec::push`.
+#[allow(dead_code)]
+pub(super) fn vk_layout_with_states<const MAX: usize>(ncol: u16) -> (Layout<'static, 3, 2, u8>, usize) {
+    let mut l: Layout<'static, 3, 2, u8> = vk_layout_literal(&VK_SRC, &VK_LAYERS);
+    l.trans_resolution_behavior_v2 = kani::any();
+    l.delegate_to_first_layer = kani::any();
+    let dl: usize = kani::any();
+    kani::assume(dl < 3);
+    l.default_layer = dl;
+    let n: usize = kani::any();
+    kani::assume(n <= MAX);
+    let mut k = 0;
+    while k < MAX {
+        if k < n {
+            let _ = l.states.push(vk_any_state(ncol));
+        }
+        k += 1;
+    }
+    (l, n)
+}
+
+#[allow(dead_code)]
+pub(super) fn vk_state_eq(a: &State<'static, u8>, b: &State<'static, u8>) -> bool {
+    match (a, b) {
+        (NormalKey { keycode: k1, coord: c1, flags: f1 }, NormalKey { keycode: k2, coord: c2, flags: f2 }) => k1 == k2 && c1 == c2 && f1 == f2,
+        (LayerModifier { value: v1, coord: c1 }, LayerModifier { value: v2, coord: c2 }) => v1 == v2 && c1 == c2,
+        (State::Custom { value: v1, coord: c1 }, State::Custom { value: v2, coord: c2 }) => core::ptr::eq(*v1, *v2) && c1 == c2,
+        (FakeKey { keycode: k1 }, FakeKey { keycode: k2 }) => k1 == k2,
+        (RepeatingSequence { coord: c1, .. }, RepeatingSequence { coord: c2, .. }) => c1 == c2,
+        (SeqCustomPending(v1), SeqCustomPending(v2)) => core::ptr::eq(*v1, *v2),
+        (SeqCustomActive(v1), SeqCustomActive(v2)) => core::ptr::eq(*v1, *v2),
+        (Tombstone, Tombstone) => true,
+        _ => false,
+    }
+}
